@@ -138,9 +138,11 @@ Fixpoint aggr_loop (fuel : nat) (res : Z) (batch_size : nat) (chks : list achunk
   end.
 
 (* downsampleAggr on float aggregate chunks; num_chunks = targetChunkCount(...) is an input.
+   batchSize := max(len(chks)/numChunks, 1)  (C38-fix.patch; as found it was
+   len(chks)/numChunks, which is 0 when numChunks > len(chks): see aggr_loop with 0).
    (The "invalid range" error needs MinTime = MaxInt64, which float batches never produce:
    an empty aggregate yields mint = maxt = 0.) *)
 Definition downsample_aggr (res : Z) (num_chunks : nat) (chks : list achunk) : option (list achunk) :=
-  aggr_loop (length chks) res (length chks / num_chunks) chks.
+  aggr_loop (length chks) res (Nat.max (length chks / num_chunks) 1) chks.
 
 End WithWindow.
